@@ -216,10 +216,14 @@ Example df_exact_witness : normal (vt_chains df_v) /\ df_exact df_v /\ Forall vb
 Proof. exact df_v_exact. Qed.
 Print Assumptions df_exact_witness.
 
-(* PDB, as found: CONECT records carry numbers that are not the numbers of the ATOM records (single chain
-   with serials 5 and 9), the bond is lost on reload; the repaired writer keeps it.
-   partial: for the repaired writer only these witnesses are proved; agreement of CONECT and ATOM
-   numbering on all topologies is checked by the correspondence runs, not by a theorem *)
+(* PDB.  Modelled in Coq and compared with mdtraj on every run: the writer (ATOM/TER/CONECT incl. the
+   standardResidues filter) and the reader (chain/residue splitting, CONECT bonds, create_standard_bonds with the
+   table of residues.xml regenerated into coq/Gen/TopoStdBonds.v).  Theorems: only the witnesses below; agreement
+   of CONECT and ATOM numbering and the round trip for ALL topologies are established by the runs and by the
+   model-free bond-graph oracle, not by a theorem.  Oracle/run-only (outside the Coq model): pdbNames.xml renaming,
+   distance-based disulfide detection, element guessing, hybrid-36 numbering.
+   As found: CONECT records carry numbers that are not the numbers of the ATOM records (single chain with serials
+   5 and 9), the bond is lost on reload; the repaired writer keeps it. *)
 Theorem pdb_conect_agrees_current_refuted :
   let st := run flags_cur pdb_ops in
   exists recs, pdb_write flags_cur true (st_heap st) (slot st 0) = Some recs /\ conect_refers_to_atoms recs = false.
